@@ -56,6 +56,9 @@ def cases(draw):
         "algo": draw(st.sampled_from(["md5", "md5", "md5-dos2unix"])),
         # legacy `<oid>.dir.unpacked` leftovers next to directory objects (gc cleans them up for compatibility)
         "unpacked": draw(st.sampled_from([0, 0, 1, 3])),
+        # everything after the first top-level object is added through a SECOND handle on the same store,
+        # while gc runs through the first, long-lived one (its per-handle bookkeeping must not matter)
+        "two_handles": draw(st.booleans()),
         # name carried by the foreign-algorithm used ids
         "foreign": draw(st.sampled_from(["sha256", "md5-family", "md5-family"])),
     }
@@ -80,10 +83,11 @@ def run_case(case, ctx):
         if case["sep_cache"]:
             cache = ops.make_odb("local", os.path.join(d, "cache"), hash_name=algo)
         dir_ids = []
+        odb2 = ops.make_odb(case["kind"], store, hash_name=algo) if case.get("two_handles") else odb
         for i, t in enumerate(case["trees"]):
             src = os.path.join(d, f"t{i}")
             gen.materialise(t, src)
-            _, obj, _ = ops.stage_transfer(odb, src)
+            _, obj, _ = ops.stage_transfer(odb if i == 0 else odb2, src)
             dir_ids.append(obj.hash_info.value)
             if cache is not None:
                 ops.stage_transfer(cache, src)
@@ -92,14 +96,14 @@ def run_case(case, ctx):
 
             src = os.path.join(d, "tz")
             gen.materialise({f"z{j}": "h:" + zeros()[j].hex() for j in range(case["zeros"])}, src)
-            _, obj, _ = ops.stage_transfer(odb, src)
+            _, obj, _ = ops.stage_transfer(odb2, src)
             dir_ids.append(obj.hash_info.value)
             if cache is not None:
                 ops.stage_transfer(cache, src)
         for i, c in enumerate(case["loose"]):
             p = os.path.join(d, f"loose{i}")
             gen.write_file(p, gen.content_bytes(c))
-            ops.stage_transfer(odb, p)
+            ops.stage_transfer(odb2, p)
 
         # a used directory that lives only in cache_odb while its files live in the store
         if case["drop_dir"] and cache is not None and dir_ids:
@@ -217,6 +221,8 @@ def run_case(case, ctx):
             classes.append("per-prefix-traversal(>=16 '00' ids)")
         if n_unpacked:
             classes.append("legacy-unpacked-leftover")
+        if case.get("two_handles") and case["trees"]:
+            classes.append("objects-added-through-second-handle")
         if cache is not None:
             classes.append("separate-cache_odb")
         if expected_removed and keep & set(before):
